@@ -1,5 +1,6 @@
 import Proofs.TermTrunc
 import Proofs.TermDraw
+import Proofs.TermIngest
 /-!
 C09 — output lines are self-contained, well-formed terminal text.
 
@@ -208,5 +209,41 @@ theorem diff_stat_line_self_contained (path : Piece) (pad : Nat) (suffix : List 
   rw [StatProofs.statLine_final path pad suffix hn]
 
 example : selfContained (statLine (.plain "a.rs".toList) 3 "| 12 \x1b[32m+++\x1b[m\x1b[31m--\x1b[m".toList) := by decide
+
+/-- **What the raw paths print is made from the whole input line** (`ingest_line_utf8`,
+`src/delta.rs`): `Line.ingestRaw` = CR step, then — when the `--max-line-length` guard holds —
+`truncate_str` of the *whole* CR-processed line. (1) The source has exactly the modelled statements:
+the field assignments in their order, each computed from what the model says (`truncate_str` is
+given `&self.raw_line`, not a slice of it), no other statement before, between or after them, and
+`ingest_line` hands the line over whole (`Generated.IngestSteps`, regenerated on every run).
+(2) For every line whose own sequences are balanced, every limit, either value of the CR test and
+of the guard: `raw_line` is balanced. (3) It is the CR-processed line itself, or it carries exactly
+the escape sequences of that line followed by those of the truncation symbol, in order - none is
+dropped and none is cut, however many bytes of the line are escape sequences. -/
+theorem ingest_line_self_contained (tailZeroWidth truncates : Bool) (maxLen : Nat)
+    (sym items : List Item) (line out : List Char)
+    (hcr : ∀ a t, splitLastCr line = some (a, t) → (final init a).mode = .ground)
+    (hpart : flatten items = crStep tailZeroWidth line)
+    (hok : ∀ i ∈ items, Item.ok i) (hsym : ∀ i ∈ sym, Item.ok i)
+    (hsc : selfContained (flatten sym)) (hline : selfContained line)
+    (h : ingestRaw tailZeroWidth truncates maxLen sym line items = some out) :
+    ingestStepsAsModelled = true ∧ selfContained out ∧
+    (out = crStep tailZeroWidth line ∨
+      ∃ r, out = flatten r ∧ escsOf r = escsOf items ++ escsOf sym ∧ ∀ i ∈ r, Item.ok i) :=
+  ⟨IngestProofs.steps_as_modelled,
+   IngestProofs.ingestRaw_selfContained tailZeroWidth truncates maxLen sym items line out hcr hpart hok hsym hsc
+     hline h,
+   IngestProofs.ingestRaw_escs tailZeroWidth truncates maxLen sym items line out hpart hok hsym h⟩
+
+/-- A "rainbow" line (every letter in its own 24-bit colour: 22 bytes for one column) at
+`--max-line-length 2`: the text is cut after one column, all six sequences are kept. -/
+example : ingestRaw true true 2 [.esc "\x1b[7m".toList, .text [⟨"→".toList, 1⟩], .esc "\x1b[0m".toList]
+      "\x1b[38;2;1;2;3ma\x1b[0m\x1b[38;2;4;5;6mb\x1b[0m\x1b[38;2;7;8;9mc\x1b[0m".toList
+      [.esc "\x1b[38;2;1;2;3m".toList, .text [⟨['a'], 1⟩], .esc "\x1b[0m".toList,
+       .esc "\x1b[38;2;4;5;6m".toList, .text [⟨['b'], 1⟩], .esc "\x1b[0m".toList,
+       .esc "\x1b[38;2;7;8;9m".toList, .text [⟨['c'], 1⟩], .esc "\x1b[0m".toList] =
+    some ("\x1b[38;2;1;2;3ma\x1b[0m\x1b[38;2;4;5;6m\x1b[0m\x1b[38;2;7;8;9m\x1b[0m\x1b[7m→\x1b[0m".toList) ∧
+    selfContained ("\x1b[38;2;1;2;3ma\x1b[0m\x1b[38;2;4;5;6m\x1b[0m\x1b[38;2;7;8;9m\x1b[0m\x1b[7m→\x1b[0m".toList) := by
+  decide
 
 end C09
